@@ -223,6 +223,7 @@ void down_heap(void *root, unsigned size);
                           (q).cap = (n),                                \
                           (void)((q).size = 0))
 #define enqueue(q,e) (assert((q).size < (q).cap),       \
+                      verif_qmark(#q, (q).size + 1u, (q).cap), \
                       (q).root[(q).size] = (e),         \
                       up_heap((q).root, (q).size++))
 #endif
